@@ -42,7 +42,7 @@ pub open spec fn spec_idx(t: int, len: int, n: int) -> int { (t / len) % n }
 //@extract-fn file=core/base/stat.rs fn=check_validity_for_reuse_statistic
 //@ ret: r
 //@ ensures: r.is_ok() == reusable(sample_count, interval_ms, parent_sample_count, parent_interval_ms)
-//@ proof-before `if bucket_length_in_ms % parent_bucket_length_in_ms != 0`: proof { lemma_div_pos(parent_interval_ms as int, parent_sample_count as int); }
+//@ proof-after `let parent_bucket_length_in_ms =`: proof { lemma_div_pos(parent_interval_ms as int, parent_sample_count as int); }
 //@end
 
 pub proof fn lemma_div_pos(a: int, b: int)
